@@ -32,8 +32,21 @@ def check_c09(ctx):
     json.dump(std, open(pstd, "w"))
     core.write_ndjson(pdocs, docs)
     core.run_harness(ctx, ["convert", "--in", pin, "--std", pstd, "--docs", pdocs, "--out", pout])
+    # converters built from layers (the pool of MC_Builder with the unit table CookBuilder predicts): every pair of units
+    rb = core.run_tlc(ctx, "MC_Builder", "MC_Builder_quick.cfg" if quick else "MC_Builder_thorough.cfg", workers=8, timeout=3000,
+                      strata=((r'outcome\\":\\"([a-z]+)', 1500 if quick else 20000)))
+    ctx.model_violation(rb, "(builder pool)")
+    pbin = os.path.join(ctx.work, "lay_in.ndjson")
+    pbout = os.path.join(ctx.work, "lay_obs.ndjson")
+    core.write_ndjson(pbin, [x for x in rb.replay if x["pred"]["outcome"] == "built"])
+    core.run_harness(ctx, ["builder", "--in", pbin, "--out", pbout, "--conversions"])
+    with open(pout, "a") as f:
+        f.write(open(pbout).read())
     obs = core.read_ndjson(pout)
-    n, bad, _ = core.run_judge(ctx, "Trace_Convert", pout)
+    n, bad, notes = core.run_judge(ctx, "Trace_Convert", pout)
+    for _, names in notes:
+        for d in names:
+            ctx.drift_note(d)
     for line, names in bad:
         x = obs[line - 1]
         for c in names:
@@ -43,6 +56,9 @@ def check_c09(ctx):
             elif x["kind_rec"] == "fit":
                 what = f"Quantity::fit in {x['unit']}: {x['bad']} of {x['values']} values change the amount (first: {x['first']}), {x['panics']} panics"
                 key = f"{c}:{x['unit']}"
+            elif x["kind_rec"] == "layered":
+                what = f"converter built from layers {json.dumps(x['files'])[:260]}: {x.get('bad')} of {x.get('pairs')} conversions differ from the predicted ratios (first: {x.get('first')}); {x['st']}"
+                key = f"{c}:layered"
             elif x["kind_rec"] == "bundled":
                 what = f"bundled {x['from']} -> {x['to']}: back_ok={x['back_ok']} via_ok={x['via_ok']} std_ok={x['std_ok']} worst={x['worst_ppb']}ppb"
                 key = f"{c}:{x['from']}"
@@ -57,7 +73,9 @@ def check_c09(ctx):
                 "enumerated by TLC with the exact rational result, chosen best unit or failure class; (2) every ordered pair of "
                 "the bundled converter's units of one physical quantity x 7 values: there-and-back, via every third unit, and "
                 "agreement with the standard definitions carried by the specification (StdDefs) within 1e-6; (3) valid CookDoc "
-                "recipes through ScaledRecipe::convert to both systems with the model and the bundled converter. "
+                "recipes through ScaledRecipe::convert to both systems (there and back) with the model and the bundled converter; "
+                "(4) Quantity::fit over a value sweep of every bundled unit; (5) every converter CookBuilder predicts to be built from "
+                "the layer pool of MC_Builder: each ordered pair of its units by the predicted ratios. "
                 "non-trivial = successful model conversions + bundled unit pairs")
     ctx.extra["exhaustive"] = True
     ctx.extra["bundled_pairs"] = sum(1 for x in obs if x["kind_rec"] == "bundled")
